@@ -87,18 +87,20 @@ CHECKS = {
             "executor: unconditionally; with executor: for any executor that never under-counts... see Props/C16.lean), "
             "a doomed report always carries a message, and with a truthful executor the report is exact. " + CORR,
             "", "DESIGN.md 5/C16"),
-    "C17": (PR, "Lean 4 theorems by induction over the recursion budget of the SQL engine's mutual tree-building block (conform, append_unary, _append_unary_to_select incl. projection push-down into UNION branches, apply) + correspondence (every conformed tree also runs on SQLite) + structural oracle on every Select",
-            "Machine-checked for every raw well-formed join-free SQL tree (leaves, materializations, transfers, the seven "
-            "unary operations with arbitrary parameters, chains, any depth) over any truthful leaf contents and for every "
-            "recursion budget: conform returns a coherent Select (flagged compound iff its skip target is a chain; recorded "
-            "slots well-formed on the skip target; the marked relation has the rows of slice(dedup(proj(sort(skip target)))) "
-            "and the recorded columns) with the same rows (values, multiplicity, order), columns and engine; conforming "
-            "the result again returns the same object; each of the seven cases of _append_unary_to_select (merge into the "
-            "slots, apply below them, nest in a subquery, push a projection into the branches of a UNION) returns a "
-            "coherent Select with exactly the rows of the operation applied to the given one; operation.apply(target) inside "
-            "the SQL engine does the same. Proof (partial): joins (_append_binary_to_select strips and re-projects its "
-            "operands) and 'every factory result is already a Select' for joins are validated by correspondence + the "
-            "structural oracle + SQLite execution, not proved. " + CORR, "", "DESIGN.md 5/C17"),
+    "C17": (PR, "Lean 4 theorems by induction over the recursion budget of the SQL engine's mutual tree-building block (conform, append_unary, _append_unary_to_select incl. projection push-down into UNION branches, _append_binary_to_select for chain and join, apply) + correspondence (every conformed tree also runs on SQLite) + structural oracle on every Select",
+            "Machine-checked for every raw well-formed SQL tree (leaves, materializations, transfers, the seven unary "
+            "operations with arbitrary parameters, chains, joins with any predicate over the operands' columns; any depth) "
+            "over any truthful leaf contents and for every recursion budget: conform returns a coherent Select (flagged "
+            "compound iff its skip target is a chain; recorded slots well-formed on the skip target; the marked relation has "
+            "the rows of slice(dedup(proj(sort(skip target)))) and the recorded columns) with the same rows (values, "
+            "multiplicity, order), columns and engine; conforming the result again returns the same object; each of the "
+            "seven cases of _append_unary_to_select (merge into the slots, apply below them, nest in a subquery, push a "
+            "projection into the branches of a UNION) returns a coherent Select with exactly the rows of the operation "
+            "applied to the given one; _append_binary_to_select(Join) - stripping the operands' projections, guarding hidden "
+            "columns, re-projecting - yields exactly the join; operation.apply(target) for a unary operation inside the SQL "
+            "engine does the same. Proof (partial): the join factory's own path (PartialJoin through apply) and 'its result "
+            "is already a Select' are validated by correspondence + the structural oracle + SQLite execution, not proved. "
+            + CORR, "", "DESIGN.md 5/C17"),
     "C18": (PR, "Lean 4 theorems over the lazy-iteration event model (exec_lazy, events_sublist, consumer frames) + correspondence",
             "Machine-checked for all lazy-only trees, leaf contents, states and consumption depths: execute() changes no "
             "state (no leaf iteration); iterating the result to any depth starts each leaf occurrence at most once, in "
